@@ -98,5 +98,85 @@ func extractStore() {
 		l.def(strings.ToLower(k[:1])+k[1:], "Nat", v, "headerfs."+k)
 		st[k] = v
 	}
+	// the two-place layout of the index (root bucket for entries of older versions, hash-prefix sub-buckets)
+	count := func(cs []call, name string) int {
+		n := 0
+		for _, c := range cs {
+			if c.name == name {
+				n++
+			}
+		}
+		return n
+	}
+	layout := func(name string, ok bool, comment string) {
+		l.def(name, "Bool", lbool(ok), comment)
+		st[name] = ok
+	}
+	if fd := funcDecl(fIndex, "", "getHeaderEntry"); fd != nil {
+		cs := calls(fd.Body)
+		body := squeeze(src(fd.Body))
+		layout("indexGetSubThenRoot", count(cs, "getHeaderEntryFallback") == 2 && count(cs, "rootBucket.NestedReadBucket") == 1 &&
+			count(cs, "subBucket.Get") == 1 && strings.Contains(body, "ifsubBucket==nil{") && strings.Contains(body, "ifheightBytes==nil{"),
+			"getHeaderEntry: the sub-bucket first; the root bucket when the sub-bucket or the key is missing")
+	} else {
+		fail("headerfs/index.go: getHeaderEntry")
+	}
+	if fd := funcDecl(fIndex, "", "getHeaderEntryFallback"); fd != nil {
+		layout("indexFallbackReadsRoot", count(calls(fd.Body), "rootBucket.Get") == 1, "getHeaderEntryFallback reads the root bucket")
+	} else {
+		fail("headerfs/index.go: getHeaderEntryFallback")
+	}
+	if fd := funcDecl(fIndex, "headerIndex", "addHeaders"); fd != nil {
+		cs := calls(fd.Body)
+		tipOnly := true
+		for _, c := range cs {
+			if c.name == "rootBucket.Put" && (len(c.args) != 2 || c.args[0] != "tipKey") {
+				tipOnly = false
+			}
+		}
+		layout("indexAddIntoSubBucket", count(cs, "putHeaderEntryInBucket") == 1 && count(cs, "rootBucket.NestedReadWriteBucket") == 1 &&
+			count(cs, "rootBucket.Put") == 1 && tipOnly && strings.Contains(squeeze(src(fd.Body)), "prefix:=header.hash[0:numSubBucketBytes]"),
+			"addHeaders: every entry goes into the sub-bucket named by the hash prefix; the root bucket only receives the tip key")
+	} else {
+		fail("headerfs/index.go: headerIndex.addHeaders")
+	}
+	if fd := funcDecl(fIndex, "", "putHeaderEntryInBucket"); fd != nil {
+		layout("indexPutKeyIsHash", strings.Contains(squeeze(src(fd.Body)), "subBucket.Put(header.hash[:],heightBytes[:])"), "putHeaderEntryInBucket: key = hash, value = height")
+	} else {
+		fail("headerfs/index.go: putHeaderEntryInBucket")
+	}
+	if fd := funcDecl(fIndex, "", "deleteHeaderEntries"); fd != nil {
+		cs := calls(fd.Body)
+		body := squeeze(src(fd.Body))
+		layout("indexDeleteRootElseSub", strings.Contains(body, "iflen(rootBucket.Get(hashBytes))==4{rootBucketHashes=append(rootBucketHashes,hash)continue}") &&
+			count(cs, "rootBucket.Delete") == 1 && count(cs, "subBucket.Delete") == 1 && count(cs, "rootBucket.NestedReadWriteBucket") == 1 &&
+			strings.Contains(body, "ifsubBucket==nil{returnfmt.Errorf("),
+			"deleteHeaderEntries: hashes found in the root bucket are deleted there, the others from their sub-bucket; a missing sub-bucket is an error")
+	} else {
+		fail("headerfs/index.go: deleteHeaderEntries")
+	}
+	if fd := funcDecl(fIndex, "", "newHeaderIndex"); fd != nil {
+		layout("indexOpenEnsuresSubBuckets", count(calls(fd.Body), "ensureIndexSubBuckets") == 1, "newHeaderIndex creates every sub-bucket")
+	} else {
+		fail("headerfs/index.go: newHeaderIndex")
+	}
+	if fd := funcDecl(fIndex, "", "ensureIndexSubBuckets"); fd != nil {
+		body := squeeze(src(fd.Body))
+		nb, _ := constInt(fIndex, "numSubBucketBytes")
+		layout("indexEnsureAllPrefixes", nb == 2 && strings.Contains(body, "fori:=0;i<=0xffff;i++{") && strings.Contains(body, "rootBucket.CreateBucketIfNotExists(prefix[:])"),
+			"ensureIndexSubBuckets creates all 2^16 two-byte prefixes")
+	} else {
+		fail("headerfs/index.go: ensureIndexSubBuckets")
+	}
+	if fd := funcDecl(fStore, "headerStore", "resetInterruptedInit"); fd != nil {
+		cs := calls(fd.Body)
+		layout("openResetsInterruptedInit", callIndex(cs, "h.hasChainTip") >= 0 && callIndex(cs, "h.file.Truncate") > callIndex(cs, "h.hasChainTip") &&
+			strings.Contains(squeeze(src(fd.Body)), "iffileSize!=int64(headerSize){returnfileSize,nil}"),
+			"resetInterruptedInit: only a file of exactly one header with no tip in the index is emptied")
+	} else {
+		layout("openResetsInterruptedInit", false, "resetInterruptedInit missing")
+	}
+	before("blockOpenResetBeforeSizeTest", funcDecl(fStore, "", "NewBlockHeaderStore"), "resetInterruptedInit", "bhs.WriteHeaders", "NewBlockHeaderStore")
+	before("filterOpenResetBeforeSizeTest", funcDecl(fStore, "", "NewFilterHeaderStore"), "resetInterruptedInit", "fhs.WriteHeaders", "NewFilterHeaderStore")
 	facts["store"] = st
 }
